@@ -225,3 +225,32 @@ def run(code_or_text, mode, schedule, limit=20000):
     except Exception as e:
         status = "exc:" + type(e).__name__ + ":" + str(e)[:80]
     return status, w.ev, res
+
+
+# ------------------------------------------------------------------ M-CTRL correspondence (Lean Ctrl model)
+def sk_json(block):
+    out = []
+    for s in block:
+        k = s[0]
+        if k == "atom": out.append(["atom", s[1]])
+        elif k in ("pass", "brk", "cont"): out.append([k])
+        elif k == "ret": out.append(["ret", s[1]])
+        elif k in ("if", "while", "for"): out.append([k, s[1], sk_json(s[2]), sk_json(s[3])])
+        else:
+            raise ValueError(k)
+    return out
+
+
+def has_def(block):
+    return any(s[0] == "def" or (s[0] in ("if", "while", "for") and (has_def(s[2]) or has_def(s[3]))) for s in block)
+
+
+def ev_str(e):
+    return " ".join(str(x) for x in e)
+
+
+def res_json(res):
+    if not res:
+        return None
+    v = res[-1]
+    return None if v is None else v[1] * 3 + v[2]
